@@ -1,4 +1,4 @@
-(** Finite checks for the static facts used by C03 and C20. *)
+(** Finite checks for the call-graph fact used by C03. *)
 Require Import Coq.Strings.String Coq.Lists.List Coq.Bool.Bool Coq.Arith.PeanoNat Coq.NArith.NArith.
 Require Import GAApi.Syntax GAApi.ModelTypes GAApi.ModelStatic GAApi.StaticProofs.
 Require Import GAApi.Gen.GenTypes GAApi.Gen.GenCallGraph.
@@ -61,24 +61,8 @@ Proof. exact (proj1 (forallb_forall _ _) callbacks_borrow_check). Qed.
 Lemma cg_no_unknown_check : is_nil GenCallGraph.unknown_items = true.
 Proof. vm_compute. reflexivity. Qed.
 
-(** *** C20 *)
-Lemma statics_check : is_nil statics && is_nil thread_locals && is_nil GenCallGraph.unknown_items = true.
-Proof. vm_compute. reflexivity. Qed.
-
 Lemma is_nil_spec : forall {A} (l : list A), is_nil l = true -> l = [].
 Proof. intros A [|x l]; simpl; [reflexivity | discriminate]. Qed.
 
-Lemma statics_nil : statics = [] /\ thread_locals = [] /\ GenCallGraph.unknown_items = [].
-Proof.
-  pose proof statics_check as H. apply andb_prop in H. destruct H as [H H3]. apply andb_prop in H. destruct H as [H1 H2].
-  exact (conj (is_nil_spec _ H1) (conj (is_nil_spec _ H2) (is_nil_spec _ H3))).
-Qed.
-
-Lemma state_structs_check : forallb (state_struct_ok decls) state_structs = true.
-Proof. vm_compute. reflexivity. Qed.
-
-Lemma state_structs_lifted : forall n, In n state_structs -> state_struct_ok decls n = true.
-Proof. exact (proj1 (forallb_forall _ _) state_structs_check). Qed.
-
-Lemma fresh_ctors_check : fresh_ctor fns "Context" && fresh_ctor fns "Metrics" = true.
-Proof. vm_compute. reflexivity. Qed.
+Lemma cg_no_unknown : GenCallGraph.unknown_items = [].
+Proof. exact (is_nil_spec _ cg_no_unknown_check). Qed.
